@@ -395,6 +395,17 @@ func c09Run(c *mon.Ctx) {
 			c.Count("circle_rim_point_pairs")
 			a, b := evalTri(circ, pt), evalTri(circ, sp)
 			a2, b2 := evalTri(pt, circ), evalTri(sp, circ)
+			// a point well inside the circle (at most 0.99 of the radius: far more than the 64-gon's deficit) that the
+			// circle contains must lie in the circle's own rectangle; consecutive circles here share one of four radii
+			// at latitudes between -40 and 40 (added after seeded change C09-p, which cached the polygon's offsets by
+			// radius and step count only, so that a circle inherited the width computed at another latitude)
+			if ratio <= 0.99 && a.c {
+				c.Count("circle_contains_point_rect_checked")
+				if rc := circ.Rect(); !(rc.Min.X <= p.X && p.X <= rc.Max.X && rc.Min.Y <= p.Y && p.Y <= rc.Max.Y) {
+					c.Violation("contains-implies-rect-covers (circle)", fmt.Sprintf("the circle contains the point (%.4g of the radius from the centre) but its rectangle %v does not cover it", ratio, rc),
+						c09Case{A: nCircle(cen, m, 64).Describe(), B: nPoint(p).Describe(), Law: "A contains non-empty B => rect(A) covers rect(B)"})
+				}
+			}
 			if a != b || a2 != b2 {
 				c.Violation("transparency SimplePoint near a circle's rim", fmt.Sprintf("Circle vs Point %+v / %+v, Circle vs SimplePoint %+v / %+v", a, a2, b, b2),
 					c09Case{A: nCircle(cen, m, 64).Describe(), B: nPoint(p).Describe(), Law: "SimplePoint answers as the equivalent Point"})
